@@ -48,3 +48,11 @@ add("C03",
     "Real code: each class (quick: seeded covering subset incl. all cfg x key x sig triples; thorough: the full table plus random byte-level mutations) is built by signing per the pubsub spec and tampering exactly as the class says, injected alone by fake peers (as author with Ed25519/RSA host ids, or third party) into real gossipsub and floodsub nodes under every policy x author mode; delivery (Subscription.Next), forwarding (observer peer in the mesh), reject reasons and the oracle's verdict are logged and TLC evaluates the predicates on every line; the node's own publications (default/custom/per-publish key/no author) are verified by the same oracle at the receiver.",
     "Level: model checking of the abstraction (DESIGN section 6). Trusts: crypto.Verify is sound; the oracle shares the protobuf codec and go-libp2p crypto/peer with the code but nothing of package pubsub; bytes outside every class are only sampled (fuzz lines). Zero-length fields and attached keys that do not match an inline id are judged leniently (conformance drift only). The node under test always has an Ed25519 host id.",
     "DESIGN.md section 4 C03, section 6, section 9")
+
+add("C19",
+    "TLA+ trace-replay machine (one action per TraceEvent type) composed with an abstract router and model-checked for state recovery at every quiet state (TLC; seeded-defect configs must fail) + replay of real EventTracer streams by TLC against snapshot, wire, subscriber and queue-hook ground truth",
+    "TLC exhaustively checks that replaying the events the router model emits the way the library's call sites do (JOIN then GRAFTs, LEAVE then PRUNEs, only ON_CLOSED_OUTBOUND_STREAM on disconnect, SEND/DROP after every queue push, PUBLISH/DELIVER incl. batches) rebuilds peer set, joined set, meshes, delivery/publication bags and per-turn RPC tallies at every quiet state; variants with D8 (Leave emits JOIN), no close event, no PRUNE on leave, double DELIVER in batches must fail. "
+    "Real code: gossipsub, floodsub and randomsub nodes driven through TLC-generated stimulus sequences, targeted scripts (queue of one with gated writes, announce retries, batch publishing, oversized RPCs, fanout-only topics, validator rejections, blacklist, stream resets) and seeded walks; every step line carries the protobuf event stream, the in-loop snapshot, subscriber deliveries, frames on the wire and every rpcQueue push seen by the verif hook; JSON and protobuf file tracers are parsed back after Close. "
+    "TLC replays the events line by line and checks P_C19_Alternate, Peers, Mesh, Deliver, Publish, Rpc and Files at each quiet line.",
+    "Trusts: synctest quiescence (a step line is a quiet state); the verif-tagged read-only snapshot and queue-push hook; harness naming of messages by payload prefix. Per-step (not per-peer cumulative) RPC accounting because the hook cannot map a queue to a peer. RemoteTracer not exercised.",
+    "DESIGN.md section 4 C19, section 9")
